@@ -318,6 +318,8 @@ def run(case, prop):
     for xml in (False, True):
         for pos in range(-1, len(s) + 2):
             try:
+                try: match(s, pos, {'xml': xml, 'special': {}})          # the same source under another `special` table right before: nothing of it may be remembered
+                except Exception: pass
                 m = match(s, pos, shared_opt[xml]); o = balanced_outward(s, pos, shared_opt[xml]); i = balanced_inward(s, pos, shared_opt[xml])
                 if shared_opt[xml] != {'xml': xml}: viol.append('options-changed| the matcher changed the options dictionary of its caller: %r' % (shared_opt[xml],)); shared_opt[xml] = {'xml': xml}
                 out += ' | %s ; %s ; %s' % (sm(m), ' '.join(sm(x) for x in o), ' '.join(sm(x) for x in i))
